@@ -113,6 +113,16 @@ def gen_world_params(rng: random.Random, config: dict, groups_n: int, gsize: int
     return params, groups
 
 
+def mix_dtypes(rng: random.Random, params: list[dict], dtype: str) -> None:
+    """A share of worlds mixes parameter dtypes inside a group (float32 with bfloat16), the first parameter being the
+    narrow one half of the time."""
+    if dtype != "float32" or len(params) < 2 or rng.random() > 0.15:
+        return
+    for i, p in enumerate(params):
+        if (i == 0 and rng.random() < 0.5) or (i > 0 and rng.random() < 0.4):
+            p["dtype"] = "bfloat16"
+
+
 def predicted_param_owners(trace: dict, gsize: int, itemsize: int) -> list[list[set]]:
     """Per group: for every param (group-local order) the set of group ranks predicted to own one of its blocks."""
     out = []
@@ -231,6 +241,7 @@ def generate(rng: random.Random, tier: str) -> dict:
     }
     groups_n = rng.choice([1, 1, 1, 2])
     params, groups = gen_world_params(rng, config, groups_n, gsize, dtype)
+    mix_dtypes(rng, params, dtype)
     trace = {
         "schema": 1,
         "property": ID,
